@@ -169,6 +169,11 @@ func init() {
 			fr.i.sch.maxPreempt = int(asInt64(a[1]))
 			return nil
 		},
+		// vxStepBudget(m): allow up to m million interpreted instructions per path (heavy library code)
+		"vxStepBudget": func(fr *frame, a []value) value {
+			fr.i.cfg.maxSteps = asInt64(a[0]) * 1_000_000
+			return nil
+		},
 		"vxPoolMode": func(fr *frame, a []value) value {
 			fr.i.world.poolMode = int(asInt64(a[0]))
 			return nil
